@@ -65,6 +65,7 @@ class Parser:
         self._error_output = ''
         self._load_runtime()
         self._tokens = Lex(input_string).tokens()
+        self._current_token = Token(TokenTypes.UNKNOWN)
         self.next_token()
         return self._script()
 
